@@ -337,7 +337,7 @@ func (r *Runner) Step(s Step) *Failure {
 		if desc == "undo" || desc == "redo" {
 			r.Ev["undo_redo_executed"]++
 		}
-		if s.Op == "pset" || s.Op == "pclear" || s.Op == "pmix" {
+		if s.Op == "pset" || s.Op == "pclear" || s.Op == "pmix" || s.Op == "pmixh" {
 			r.Ev["presence_write"]++
 		}
 		if r.OnEdit != nil {
